@@ -528,10 +528,9 @@ Proof. intro I. apply Inv_emit_harmless; auto. cbn. apply check_live. apply Inv_
 Lemma Inv_skip_id st : Inv st -> Inv (skip_id st).
 Proof. intros [D I]. split; cbn; auto. apply inv_core_skip; auto. Qed.
 
-Lemma Inv_do_add ms n0 cb kw st : Inv st -> Inv (do_add ms n0 cb kw st).
+Lemma Inv_add_named ms n cb kw st : Inv st -> Inv (add_named ms n cb kw st).
 Proof.
-  intros [D I]. unfold do_add.
-  set (n := if n0 <? 0 then -1 - next st else n0).
+  intros [D I]. unfold add_named.
   set (st0 := mkS (now st) (next st + 1) (dict st) (timers st) (log st)).
   assert (W0 : wf st0) by (destruct I as (N1 & N2 & _); repeat split; auto).
   rewrite do_remove_nf by exact W0.
@@ -546,16 +545,27 @@ Proof.
     intros t Ht. rewrite timers_removed in Ht. cbn in Ht. apply in_rm in Ht as [_ Ht]. exact Ht.
 Qed.
 
+Lemma do_add_client_name ms n cb kw st : 0 <= n -> do_add ms n cb kw st = add_named ms n cb kw st.
+Proof.
+  intro H. unfold do_add, usable, known, add_ret, is_anon.
+  destruct (Z.eqb_spec n (-1)); [lia|]. destruct (Z.leb_spec 0 n); [|lia]. reflexivity.
+Qed.
+
+Lemma Inv_do_add ms n0 cb kw st : Inv st -> Inv (do_add ms n0 cb kw st).
+Proof. intro I. unfold do_add. destruct (usable st n0); auto. apply Inv_add_named; auto. Qed.
+
 Lemma Inv_do_add_if ms n0 cb kw st : Inv st -> Inv (do_add_if ms n0 cb kw st).
 Proof.
-  intro I. unfold do_add_if. destruct ((0 <=? n0) && check st n0).
+  intro I. unfold do_add_if. destruct (negb (usable st n0)); auto.
+  destruct (negb (is_anon n0) && check st n0).
   - apply Inv_skip_id; auto.
   - apply Inv_do_add; auto.
 Qed.
 
 Lemma Inv_do_reset ms n0 cb kw st : Inv st -> Inv (do_reset ms n0 cb kw st).
 Proof.
-  intro I. unfold do_reset. apply Inv_do_add. destruct ((0 <=? n0) && check st n0); auto.
+  intro I. unfold do_reset. destruct (negb (usable st n0)); auto.
+  apply Inv_do_add. destruct (negb (is_anon n0) && check st n0); auto.
   apply Inv_do_remove; auto.
 Qed.
 
@@ -855,7 +865,7 @@ Proof.
   pose proof (Inv_reach scripts steps) as I. fold st in I. pose proof (Inv_wf _ I) as W.
   split; [|split].
   - intro n. rewrite do_remove_nf by auto. apply timers_removed.
-  - intros ms n cb kw Hn. unfold do_add. destruct (Z.ltb_spec n 0); [lia|].
+  - intros ms n cb kw Hn. rewrite do_add_client_name by exact Hn. unfold add_named.
     set (st0 := mkS (now st) (next st + 1) (dict st) (timers st) (log st)).
     assert (W0 : wf st0) by (destruct W as [D [N1 N2]]; repeat split; auto).
     rewrite do_remove_nf by exact W0. cbn. rewrite timers_removed. reflexivity.
